@@ -94,7 +94,7 @@ func (c13) Components() map[string]string {
 
 func (c13) Gen(r *Rand, idx int, tier string) interface{} {
 	p := &c13Plan{Knobs: GenKnobs(r)}
-	p.Kind = Pick(r, []string{"cancel", "cancel", "closed-calls", "conn-close", "close-queue", "close-queue", "close-send", "close-recv", "close-errqueue", "cancel-send", "cancel-send2"})
+	p.Kind = Pick(r, []string{"cancel", "cancel", "closed-calls", "conn-close", "close-queue", "close-queue", "close-send", "close-recv", "close-errqueue", "cancel-send", "cancel-send2", "cancel-queue"})
 	p.FlushFull = r.Pct(40)
 	p.Logical = r.Pct(40)
 	p.QueueSize = Pick(r, []int{0, 1, 2, 3, 5, 100})
@@ -401,6 +401,8 @@ func (c13) Run(plan interface{}, schedSeed uint64, replay []simrt.Choice, lenien
 			c13CancelSend(p, res, conn, ch)
 		case "cancel-send2":
 			c13CancelSend2(p, res, conn, ch, pr)
+		case "cancel-queue":
+			c13CancelQueue(p, res, conn, ch)
 		}
 		_ = bg
 	})
@@ -456,14 +458,25 @@ func (c13) Run(plan interface{}, schedSeed uint64, replay []simrt.Choice, lenien
 			v.Violate("late-return", "cancel: a receive goes on consuming packages after its context was cancelled", "NextPackageUntil (callback wants every package, %d packages arriving, queue size %d, %s context cancelled): the callback was handed %d more packages after the cancellation before the call returned", p.NPkgs, p.QueueSize, p.CancelWhat, res.afterCancel)
 		}
 	}
-	if p.Kind == "cancel-send2" && res.lateFrom > 0 && v.Class == "" {
+	if p.Kind == "cancel-queue" && res.sendDone {
+		switch {
+		case res.sendErr == nil:
+			v.Probe("cancel-queue:queued-before-the-cancellation")
+		case res.cancelSeq > res.sendCall && res.cancelSeq < res.sendRet:
+			v.Probe("cancel-queue:cancelled-during-the-call")
+		default:
+			v.Probe("cancel-queue:failed")
+		}
+	}
+	if (p.Kind == "cancel-send2" || p.Kind == "cancel-queue") && res.lateFrom > 0 && v.Class == "" {
 		// the package of the sender whose call failed with its context's error: whatever reaches the transport after
 		// that call has returned must not contain it (a send with a cancelled context writes nothing - and leaves
 		// nothing behind for the next message either)
 		// (judged by when the client WROTE the bytes - a slow server reads them later)
 		for i, sq := range pr.Conn.WroteAt {
-			if sq > res.lateFrom && bytes.Contains(pr.Conn.Wrote[i], []byte(c13MarkB)) {
-				v.Violate("write-after-cancel", "cancel-send2: the package of a send that failed with its context's error went out later", "sender B's call returned %q at event %d; its package was written to the transport at event %d (with the next message)", res.sendErr, res.lateFrom, sq)
+			// (a piece of the marker is enough: what is left behind may be a fragment of the package)
+			if sq > res.lateFrom && bytes.Contains(pr.Conn.Wrote[i], []byte(c13MarkB[:8])) {
+				v.Violate("write-after-cancel", "cancel-send2: the package of a send that failed with its context's error went out later", "%s: the call returned %q at event %d; bytes of its package were written to the transport at event %d (with the next message)", p.Kind, res.sendErr, res.lateFrom, sq)
 				break
 			}
 		}
@@ -745,6 +758,45 @@ var errC13Cause = errors.New("the caller's own reason for giving up (harness mar
 
 // c13CancelSend: the context of a send that needs several packets is cancelled while the send runs.
 const c13MarkB = "BbBbBbBbBbBbBbBb-marker-of-sender-B"
+
+// c13CancelQueue: one goroutine queues a small package and then one that is longer than a packet, under a context that
+// another goroutine cancels at some step; then the channel sends a message. If the second QueuePackage failed with
+// its context's error, nothing of its package may be written from then on (whether the first package goes out with
+// the next message is the caller's business).
+func c13CancelQueue(p *c13Plan, res *c13Res, conn *tds.Conn, ch *tds.Channel) {
+	own, cancelOwn := simrt.WithCancel(context.Background())
+	defer cancelOwn()
+	big := strings.Repeat(c13MarkB, 1+(500+p.Sends*97)/len(c13MarkB))
+	sender := simrt.Spawn("sender", func() {
+		if err := ch.QueuePackage(context.Background(), &tds.LanguagePackage{Cmd: "first package of the message"}); err != nil {
+			res.setupErr = "queue: " + err.Error()
+			return
+		}
+		res.sendCall = simrt.Record("send-call", "queue", "", 0)
+		res.sendErr = ch.QueuePackage(own, &tds.LanguagePackage{Cmd: big})
+		res.sendRet = simrt.Record("send-ret", "queue", "", 0)
+		res.sendDone = true
+	})
+	canceller := simrt.Spawn("canceller", func() {
+		for i := 0; i < p.CancelAfter; i++ {
+			simrt.Yield(0)
+		}
+		simrt.Record("cancel", "own", "", 0)
+		cancelOwn()
+		res.cancelSeq = simrt.Record("cancelled", "own", "", 0)
+	})
+	simrt.Join(sender, canceller)
+	if res.sendErr != nil {
+		if !errors.Is(res.sendErr, context.Canceled) {
+			res.violate("wrong-error", "cancel: send error does not wrap the context error", "QueuePackage returned %q", res.sendErr)
+		}
+		res.lateFrom = res.sendRet
+	}
+	if err := ch.SendPackage(context.Background(), &tds.LanguagePackage{Cmd: "the next message"}); err != nil {
+		res.violate("wrong-result", "cancel-queue: the next send failed", "a send after the cancelled one failed: %v", err)
+	}
+	simrt.Sleep(10 * time.Millisecond)
+}
 
 // c13CancelSend2: two goroutines send on one channel while the server is slow (it has stopped reading for a second, so
 // one sender sits in the transport while the other waits for its turn); the waiting sender's context is cancelled
